@@ -6,6 +6,51 @@ From PyGql Require Import Spec.StoreExtSpec Proofs.StoreProofs Proofs.StoreHeal 
      Proofs.StoreCloneP Proofs.StoreDesc.
 Local Open Scope N_scope.
 
+(* clone_preserved without the resolvability clause (used by the completeness
+   proofs only) *)
+Theorem clone_preserved_core fuel m s m' s' :
+  fresh_ok m -> builtins_ok m -> closed m s -> wf_schema m s -> wf_builtins s ->
+  clone fuel m s = Ok (m', s') ->
+  (fresh_ok m' /\ wf_reg m' (s_types s') /\
+   forall n o, In (n, o) (s_types s') -> is_builtin o = false -> exists t, In (n, t) (s_types s) /\ is_builtin t = false) /\
+  forall n t, In (n, t) (s_types s) -> is_builtin t = false ->
+    exists t', alookup n (s_types s') = Some t' /\ type_cloned m' n t t' /\ type_linked (s_types s') m' t t'.
+Proof.
+  intros Hf Hb Hcl Hwf Hbi H.
+  destruct (clone_preserved _ _ _ _ _ Hf Hb Hcl Hwf Hbi H) as ((A & B & C & _) & D).
+  split; [split; [exact A|split; [exact B|exact C]]|exact D].
+Qed.
+
+Lemma Forall2_and {A B} (P Q : A -> B -> Prop) l l' :
+  Forall2 P l l' -> Forall2 Q l l' -> Forall2 (fun a b => P a b /\ Q a b) l l'.
+Proof.
+  intros H. induction H as [|a b l l' Hab Hl IH]; intros H2; [constructor|].
+  inversion H2; subst. constructor; [split; assumption|auto].
+Qed.
+
+(* a copy with linked type reference descends from its source *)
+Lemma link_desc tm m m1 a a' :
+  (forall x v, mget m x = Some v -> mget m1 x = Some v) ->
+  mget m a <> None -> xcopy m1 a a' -> olink tm m1 a a' ->
+  desc (mget m) (fun n0 => n0) m1 a' a.
+Proof.
+  intros Hex Ha (v & v' & Hv & Hv' & Hac) (w & w' & Hw & Hw' & Hl).
+  rewrite Hv in Hw. inversion Hw; subst w. rewrite Hv' in Hw'. inversion Hw'; subst w'. clear Hw Hw'.
+  assert (Hva : mget m a = Some v).
+  { destruct (mget m a) as [u|] eqn:Hu; [|congruence]. rewrite (Hex _ _ Hu) in Hv. exact Hv. }
+  assert (Hfw : forall o n, tname m o = Some n -> tname m1 o = Some n).
+  { intros o n. unfold tname. destruct (mget m o) as [u|] eqn:Hu; [|discriminate]. rewrite (Hex _ _ Hu). auto. }
+  exists v, v'. split; [assumption|]. split; [assumption|]. split.
+  - destruct v, v'; simpl in Hac; try contradiction; simpl; auto.
+  - unfold tylk. destruct v, v'; simpl in Hac; try contradiction; simpl in Hl |- *; try exact I.
+    + destruct Hl as [->|(_ & W & nm' & A & B)].
+      * split; [reflexivity|]. intros nm Hn. apply Hfw. exact Hn.
+      * split; [exact W|]. intros nm Hn. change (tname m (unwrap ty) = Some nm) in Hn. rewrite (Hfw _ _ Hn) in A. congruence.
+    + destruct Hl as [->|(_ & W & nm' & A & B)].
+      * split; [reflexivity|]. intros nm Hn. apply Hfw. exact Hn.
+      * split; [exact W|]. intros nm Hn. change (tname m (unwrap ty) = Some nm) in Hn. rewrite (Hfw _ _ Hn) in A. congruence.
+Qed.
+
 (* a fresh clone descends from its source, element by element *)
 Lemma clone_redesc fuel m s m1 c :
   fresh_ok m -> builtins_ok m -> closed m s -> wf_schema m s -> wf_builtins s ->
@@ -15,53 +60,56 @@ Lemma clone_redesc fuel m s m1 c :
 Proof.
   intros Hf Hb Hcl Hwf Hbi H.
   destruct (clone_owned _ _ _ _ _ Hf Hb Hcl Hwf Hbi H) as (Fown & _).
-  destruct (clone_preserved _ _ _ _ _ Hf Hb Hcl Hwf Hbi H) as ((Hf1 & Hwf1 & Hback) & Hfw).
+  destruct (clone_preserved _ _ _ _ _ Hf Hb Hcl Hwf Hbi H) as ((Hf1 & Hwf1 & Hback & _) & Hfw).
   assert (Hex : forall x v, mget m x = Some v -> mget m1 x = Some v).
   { intros x v Hx. rewrite (fr_frame _ _ _ Fown); [exact Hx|].
     destruct (N.lt_ge_cases x (m_next m)) as [Hlt|Hge]; [assumption|]. rewrite (Hf x Hge) in Hx. discriminate. }
   split; [assumption|]. split; [intros n b Hnb; apply Hex; apply Hb; exact Hnb|]. split; [assumption|].
   intros n o Hin Hbo. destruct (Hback n o Hin Hbo) as (t & Ht & Hbt). exists t. split; [assumption|].
-  destruct (Hfw n t Ht Hbt) as (t' & Hl & Hc).
+  destruct (Hfw n t Ht Hbt) as (t' & Hl & Hc & Hlk).
   assert (o = t').
   { pose proof (nodup_lookup _ _ _ (proj1 Hwf1) Hin) as Hl2. congruence. }
   subst t'. destruct Hc as (k & d & ms & ifs & r & ds & ms' & ifs' & Hgt & Hgo & Hm).
+  destruct Hlk as (n2 & k2 & d2 & ms2 & ifs2 & r2 & ds2 & n3 & k3 & d3 & ms3 & ifs3 & r3 & ds3 & Hgt2 & Hgo2 & _ & Hlm).
+  rewrite Hgt in Hgt2. inversion Hgt2; subst n2 k2 d2 ms2 ifs2 r2 ds2. rewrite Hgo in Hgo2. inversion Hgo2; subst n3 k3 d3 ms3 ifs3 r3 ds3.
+  clear Hgt2 Hgo2.
   (* the source side, read in the source's heap *)
   assert (Hsrc_t : mget m t = Some (OType n k d ms ifs r ds)).
   { pose proof (wf_names _ _ Hwf _ _ Ht) as Hn. unfold tname in Hn. destruct (mget m t) as [v|] eqn:Hv; [|discriminate].
     pose proof (Hex _ _ Hv) as Hv1. rewrite Hv1 in Hgt. exact Hgt. }
   pose proof (wf_typed _ _ Hwf _ _ Ht Hbt) as Htt. unfold type_typed in Htt. rewrite Hsrc_t in Htt.
   exists k, d, ms, ifs, r, ds, ms', ifs'. split; [assumption|]. split; [assumption|].
-  assert (Hback1 : forall x v, mget m x <> None -> mget m1 x = Some v -> mget m x = Some v).
-  { intros x v Hx Hv1. destruct (mget m x) as [w|] eqn:Hw; [|congruence]. rewrite (Hex _ _ Hw) in Hv1. exact Hv1. }
-  assert (Hx2d : forall a a', mget m a <> None -> xcopy m1 a a' -> desc (mget m) (fun n0 => n0) m1 a' a).
-  { intros a a' Ha (v & v' & Hv & Hv' & Hac). exists v, v'. split; [apply Hback1; assumption|]. split; [assumption|].
-    destruct v, v'; simpl in Hac; try contradiction; simpl; auto. }
+  assert (Hx2d : forall a a', mget m a <> None -> xcopy m1 a a' /\ olink (s_types c) m1 a a' ->
+            desc (mget m) (fun n0 => n0) m1 a' a).
+  { intros a a' Ha [A B]. eapply link_desc; eauto. }
   assert (Hleafex : forall l, Forall (leaf m) l -> forall x, In x l -> mget m x <> None /\ sargs (mget m) x = []).
   { intros l Hll x Hx. rewrite Forall_forall in Hll. specialize (Hll x Hx). unfold leaf in Hll. unfold sargs.
     destruct (mget m x) as [[| | | |]|]; try contradiction; split; try discriminate; reflexivity. }
   assert (Hmc : forall x x', mget m x <> None ->
             (forall a, In a (sargs (mget m) x) -> mget m a <> None) ->
-            mcopy m1 x x' -> mdesc (mget m) (fun n0 => n0) m1 x' x).
-  { intros x x' Hx Hargs (Hxc & Hac). split; [apply Hx2d; assumption|].
+            mcopy m1 x x' /\ mlink (s_types c) m1 x x' -> mdesc (mget m) (fun n0 => n0) m1 x' x).
+  { intros x x' Hx Hargs [(Hxc & Hac) (Hxl & Hal)]. split; [apply Hx2d; auto|].
     assert (Ho : oargs m1 x = sargs (mget m) x).
     { unfold oargs, sargs. destruct (mget m x) as [w|] eqn:Hw; [|congruence]. rewrite (Hex _ _ Hw). reflexivity. }
-    rewrite Ho in Hac. apply Forall2_subseq.
-    eapply Forall2_impl_in; [|exact Hac]. intros a a' Hina Hxa. apply Hx2d; [apply Hargs; exact Hina|exact Hxa]. }
+    rewrite Ho in Hac, Hal. apply Forall2_subseq.
+    eapply Forall2_impl_in; [|exact (Forall2_and _ _ _ _ Hac Hal)]. intros a a' Hina Hxa.
+    apply Hx2d; [apply Hargs; exact Hina|exact Hxa]. }
   assert (Hgen : (forall x, In x ms -> mget m x <> None /\ forall a, In a (sargs (mget m) x) -> mget m a <> None) ->
-            Forall2 (mcopy m1) ms ms' -> subseq (mdesc (mget m) (fun n0 => n0) m1) ms' ms).
-  { intros Hall Hf2. apply Forall2_subseq. eapply Forall2_impl_in; [|exact Hf2].
+            Forall2 (mcopy m1) ms ms' -> Forall2 (mlink (s_types c) m1) ms ms' ->
+            subseq (mdesc (mget m) (fun n0 => n0) m1) ms' ms).
+  { intros Hall Hf2 Hl2. apply Forall2_subseq. eapply Forall2_impl_in; [|exact (Forall2_and _ _ _ _ Hf2 Hl2)].
     intros x x' Hinx Hmx. destruct (Hall x Hinx) as (A & B). apply Hmc; assumption. }
   destruct k.
   - subst ms'. rewrite Htt. constructor.
-  - apply Hgen; [|exact Hm]. intros x Hx. rewrite Forall_forall in Htt. specialize (Htt x Hx). unfold field_typed in Htt.
+  - apply Hgen; [|exact Hm|exact Hlm]. intros x Hx. rewrite Forall_forall in Htt. specialize (Htt x Hx). unfold field_typed in Htt.
     unfold sargs. destruct (mget m x) as [[| | | |]|] eqn:Hvx; try contradiction. split; [discriminate|].
     intros a Ha. exact (proj1 (Hleafex _ Htt a Ha)).
-  - apply Hgen; [|exact Hm]. intros x Hx. rewrite Forall_forall in Htt. specialize (Htt x Hx). unfold field_typed in Htt.
+  - apply Hgen; [|exact Hm|exact Hlm]. intros x Hx. rewrite Forall_forall in Htt. specialize (Htt x Hx). unfold field_typed in Htt.
     unfold sargs. destruct (mget m x) as [[| | | |]|] eqn:Hvx; try contradiction. split; [discriminate|].
     intros a Ha. exact (proj1 (Hleafex _ Htt a Ha)).
   - subst ms'. rewrite Htt. constructor.
-  - apply Hgen; [|exact Hm]. intros x Hx. destruct (Hleafex _ Htt x Hx) as (A & B). split; [assumption|]. rewrite B. intros a [].
-  - apply Hgen; [|exact Hm]. intros x Hx. destruct (Hleafex _ Htt x Hx) as (A & B). split; [assumption|]. rewrite B. intros a [].
+  - apply Hgen; [|exact Hm|exact Hlm]. intros x Hx. destruct (Hleafex _ Htt x Hx) as (A & B). split; [assumption|]. rewrite B. intros a [].
+  - apply Hgen; [|exact Hm|exact Hlm]. intros x Hx. destruct (Hleafex _ Htt x Hx) as (A & B). split; [assumption|]. rewrite B. intros a [].
 Qed.
 
 (* transform_schema(schema, VisibilitySchemaTransform) *)
@@ -86,7 +134,7 @@ Proof.
   intros Hf Hb Hcl Hwf Hbi Hsort H. unfold transform in H.
   destruct (clone fuel m s) as [[m1 cl]| | |] eqn:Hc; simpl in H; try discriminate.
   destruct (clone_redesc _ _ _ _ _ Hf Hb Hcl Hwf Hbi Hc) as (Hf1 & Hb1 & Hwf1 & Hrd1).
-  destruct (clone_preserved _ _ _ _ _ Hf Hb Hcl Hwf Hbi Hc) as ((_ & _ & Hback) & _).
+  destruct (clone_preserved _ _ _ _ _ Hf Hb Hcl Hwf Hbi Hc) as ((_ & _ & Hback & _) & _).
   eapply camel_desc; [exact Hf1|exact Hb1|exact (proj1 Hwf1)|exact (proj2 Hwf1)| |exact H].
   intros n o Hin Hbo. destruct (Hrd1 n o Hin Hbo) as (t & Ht & Hd). exists t. split; [assumption|]. split; [assumption|].
   destruct (Hback n o Hin Hbo) as (t2 & Ht2 & Hb2).
